@@ -14,6 +14,7 @@ from pvp import Violation, Group, Runner
 from c20_common import *
 
 CAT = json.load(open(os.path.join(os.path.dirname(os.path.abspath(__file__)), "c20_catalogue.json")))
+TWIN_FULL = set((e["subject"], e["name"], e["args"][0][4:]) for e in CAT if e.get("rhs_full_ok") and len(e["args"]) == 1 and e["args"][0].startswith("arr:"))
 POOL = Pool()
 LENGTHS = [0, 1, 2, 199, 200, 201, 202, 257, 1000]
 
@@ -57,13 +58,19 @@ def interp(p):
     a, b = p["a"], p["b"]
     tag, _, what = e["subject"].partition(":")
     self_masked = bool(p.get("self_masked")) and tag == "method" and e.get("self_masked_ok", False)
-    rhs_full = bool(self_masked and e.get("rhs_full_ok") and p.get("rhs_full", 1))
+    # in-place operators on a masked subject also accept a right-hand side of the subject's UNMASKED length; the
+    # catalogue records that for plain array arguments (rhs_full_ok), the masked-reference twin of such an entry
+    # inherits it (a masked right-hand side of full length pairs element i of the view with rhs[raw index of i] too)
+    full_ok = e.get("rhs_full_ok") or (len(e["args"]) == 1 and e["args"][0].startswith("mask:") and (e["subject"], e["name"], e["args"][0][5:]) in TWIN_FULL)
+    rhs_full = bool(self_masked and full_ok and p.get("rhs_full", 1))
     # layout of the subject / the array arguments: member views of aggregate arrays (stride 3 or 2)
     self_strided = bool(p.get("strided", 0) & 1) and tag == "method" and not self_masked and what in STRIDED
     arg_strided = bool(p.get("strided", 0) & 2) and not rhs_full and any(k.startswith("arr:") and k[4:] in STRIDED for k in e["args"])
     sched = make_schedule(p["sched"], n)
     where = "%s %s%r n=%d" % (e["subject"], e["name"], tuple(e["args"]), n)
     labels = set()
+    if rhs_full and e["args"][0].startswith("mask:"):
+        labels.add("masked_subject_masked_rhs_unmasked_length")
     if POOL.lib is None:
         raise Violation("harness/no-pool-shim", "VP_POOLSHIM not set")
     # (1) no pool
@@ -367,7 +374,7 @@ RACE_PASS = bool(os.environ.get("VP_RACE_PASS"))
 GROUPS = [] if RACE_PASS else [
     Group("catalogue_sweep", None, interp, 0, 0,
           "complete sweep: every one of the %d catalogued vectorised entry points (array methods/operators x argument-kind combinations array/scalar/masked, module functions, scalar-object methods taking arrays) x lengths {2, 201, 257} (thorough: {0,2,199,201,257,1000}) x generated schedules; one length per entry (thorough: two) runs with the subject and/or the array arguments laid out as member views of aggregate arrays (V3fArray.y, C3cArray.g, Box3fArray.max: stride 3 or 2), where other members of the parent's elements must stay untouched; non-trivial = length > 200, dispatched to the pool, >= 2 non-empty chunks executed out of order" % len(CAT),
-          required_labels=["dispatched", "concurrent", "scalar_oracle_exact", "mismatch_raises", "method", "func", "scalar", "inplace", "masked_subject", "masked_subject_unmasked_length_rhs", "scalar_fold_oracle", "strided_subject", "strided_argument", "mismatch_empty_raises"], items=sweep_items),
+          required_labels=["dispatched", "concurrent", "scalar_oracle_exact", "mismatch_raises", "method", "func", "scalar", "inplace", "masked_subject", "masked_subject_unmasked_length_rhs", "masked_subject_masked_rhs_unmasked_length", "scalar_fold_oracle", "strided_subject", "strided_argument", "mismatch_empty_raises"], items=sweep_items),
     Group("schedules", PROG, interp, 2400, 40000,
           "random (entry, length in {0,1,2,199,200,201,202,257,1000}, data seeds, masked self, schedule: up to 8 chunks incl. empty ones, permutation, worker ids, serial/concurrent); non-trivial as above",
           required_labels=["dispatched"]),
